@@ -51,7 +51,7 @@ type wideRawField struct {
 
 type wideUnknown struct {
 	K0 int            `json:"k0"`
-	X  map[string]int `json:",unknown"`
+	X  map[string]int `json:",embed"`
 }
 
 func wideNames(N int, long bool, i, j int) []string {
